@@ -13,8 +13,9 @@ ASSUMPTIONS = ["signature space sampled around valid signatures; the Python refe
 TIMEOUT = {"quick": 1500, "thorough": 3400}
 
 
-def sign_skip_znorm(p, sk, mprime, tries=400):
-    """Modified signer: emits an attempt whose only failed test is the z-norm bound (still encodable)."""
+def sign_skip_znorm(p, sk, mprime, tries=400, exact=0):
+    """Modified signer: emits an attempt whose only failed test is the z-norm bound (still encodable).
+    exact = +1 / -1: the extreme coefficient must be exactly +(gamma1-beta) / -(gamma1-beta) and nothing beyond."""
     rho, key, tr, s1, s2, t0 = pyref.sk_decode(p, sk)
     A = pyref.expand_a(p, rho)
     s1h, s2h, t0h = [pyref.ntt(x) for x in s1], [pyref.ntt(x) for x in s2], [pyref.ntt(x) for x in t0]
@@ -30,9 +31,13 @@ def sign_skip_znorm(p, sk, mprime, tries=400):
         cs1 = [pyref.intt(pyref.pmul(ch, s)) for s in s1h]
         cs2 = [pyref.intt(pyref.pmul(ch, s)) for s in s2h]
         z = [pyref.padd(a, b) for a, b in zip(y, cs1)]
-        zmax = max(abs(cmod(x)) for poly in z for x in poly)
+        zc = [cmod(x) for poly in z for x in poly]
+        zmax = max(abs(x) for x in zc)
         if zmax < p.g1 - p.beta or zmax >= p.g1:
             continue
+        if exact:
+            if zmax != p.g1 - p.beta or (exact * (p.g1 - p.beta)) not in zc or (-exact * (p.g1 - p.beta)) in zc:
+                continue
         r0 = [[pyref.lowbits(p, x) for x in pyref.psub(a, b)] for a, b in zip(w, cs2)]
         if max(abs(x) for poly in r0 for x in poly) >= p.g2 - p.beta:
             continue
@@ -111,6 +116,14 @@ def gen(tier, rng):
         zbig = sign_skip_znorm(p, sk, msgs[1])
         if zbig is not None:
             add(zbig, msgs[1], pk, ["near-miss", "z-norm"], True)
+        # exactly at the bound, both signs (the strict comparison and the branch-free |.| matter only here)
+        for sgn, tag in ((1, "z-exactly-at-bound-pos"), (-1, "z-exactly-at-bound-neg")):
+            for t in range(40 if tier == "quick" else 400):
+                mm = bytes(rng.randrange(256) for _ in range(12))
+                zb = sign_skip_znorm(p, sk, mm, tries=60, exact=sgn)
+                if zb is not None:
+                    add(zb, mm, pk, ["near-miss", tag])
+                    break
         # boundary accepts: search for the largest |z| and the heaviest hint vector
         best_z, best_h = None, None
         for _ in range(40 if tier == "quick" else 1500):
@@ -134,6 +147,12 @@ def gen(tier, rng):
             e = bytearray(pk); i = rng.randrange(len(e) * 8); e[i // 8] ^= 1 << (i % 8)
             add(s, m, bytes(e), ["bitflip-pk"])
         add(s, m + b"\x00", pk, ["other-message"])
+        # kernels the verdict depends on, at the verifier's bound (C18's cases restricted to gamma1-beta)
+        from dlib import LEVEL_OF
+        b = p.g1 - p.beta
+        for v in (b - 1, b, -(b - 1), -b):
+            vec = [0] * (256 * p.L); vec[rng.randrange(256 * p.L)] = v
+            out.append(Case("l_chknorm", LEVEL_OF[cp], [vec, b], ["in_domain", "kernel-dependency"], aux=("norm", 1 if abs(v) >= b else 0)))
         # the same through the API
         api = API_OF[cp]
         if p.mldsa:
@@ -151,6 +170,8 @@ def nontrivial(c, out):
 
 
 def oracle(c, outs):
+    if c.fn == "l_chknorm":
+        return None if outs[0] == c.aux[1] else "l_chknorm at the verifier's bound gamma1-beta returned %d, expected %d (the z gate is not exact)" % (outs[0], c.aux[1])
     cp = c.copy
     for k, v in API_OF.items():
         if v == cp and c.fn in ("ml_verify", "api_verify"):
